@@ -386,7 +386,8 @@ class InputsMachine(Machine):
         P = st.P
         v = op['variant']
         out = self._run(st, op, lambda: Background2D(
-            data, [tuple(data.shape), (10, 8), 7, (10, 8), 7, (15, 16)][v],
+            data, [tuple(data.shape), (10, 8), 7, (10, data.shape[1]),
+                   (data.shape[0], 8), (15, 16)][v],
             mask=mask,
             coverage_mask=P['coverage'] if v in (1, 4) else None,
             filter_size=3, filter_threshold=None if v < 3 else 5.0,
@@ -444,7 +445,8 @@ class InputsMachine(Machine):
         return self._run(st, op, lambda: find_peaks(
             data, thr, box_size=5, footprint=P['footprint'] if v == 3
             else None, mask=mask, centroid_func=centroid_com if v == 2
-            else None))
+            else None, border_width=[None, 2, (1, 3), None, 0, 4][v],
+            npeaks=3 if v == 5 else np.inf))
 
     def _s_starfinder(self, st, op, data, mask, error):
         from photutils.detection import (DAOStarFinder, IRAFStarFinder,
@@ -455,14 +457,15 @@ class InputsMachine(Machine):
         if op['data'] == 'q':
             import astropy.units as u
             thr = thr * u.Jy
+        eb = bool(op.get('use_error'))     # independent coin: border option
         if v % 3 == 0:
-            f = DAOStarFinder(thr, 3.0,
+            f = DAOStarFinder(thr, 3.0, exclude_border=eb,
                               xycoords=np.column_stack(
                                   [P['xpos'], P['ypos']]) if v == 3 else None)
         elif v % 3 == 1:
-            f = IRAFStarFinder(thr, 3.0)
+            f = IRAFStarFinder(thr, 3.0, exclude_border=eb)
         else:
-            f = StarFinder(thr, P['kernel'])
+            f = StarFinder(thr, P['kernel'], exclude_border=eb)
         return self._run(st, op, lambda: f(data, mask=mask))
 
     def _s_detect_threshold(self, st, op, data, mask, error):
